@@ -4,7 +4,7 @@ queue refuses the push that would exceed its capacity; ring cursors are stored o
 Sequence equality with Vec/VecDeque and drop counts are NOT decided."""
 from vlib import fixtures
 from props import _refusal_common as rc
-from rules import wrap, shrink, order, parallel, sibling, linear
+from rules import wrap, shrink, order, parallel, sibling, linear, narrow
 from vlib.mir import Fn
 from vlib.run import Broken
 
@@ -18,9 +18,17 @@ FILES = ['src/containers/fast_vec.rs', 'src/containers/specialized/valvec32.rs',
 def run(ctx):
     fx = ctx.facts("default")
     order.use_facts(fx)
-    fixtures.run(ctx, ['state', 'taint', 'wrap', 'emptyrange', 'clear', 'batch', 'rangedep'])
+    fixtures.run(ctx, ['state', 'taint', 'wrap', 'emptyrange', 'clear', 'batch', 'rangedep', 'pow2', 'narrowidx', 'panicsafe'])
     # ring cursors are only ever stored wrapped; drop loops of shrinking operations are not empty by construction
     wrap.run(ctx, fx, 'src/containers/specialized/circular_queue.rs', 'containers::specialized::circular_queue::AutoGrowCircularQueue')
+    # a mask wrap needs a power-of-two capacity
+    wrap.mask_needs_power_of_two(ctx, fx, ['src/containers/specialized/circular_queue.rs', 'src/containers/specialized/circular_queue_ultrafast.rs'])
+    ctx.floor('R-WRAP.pow2.structs', 1)
+    # positions handed in as usize are compared before they are narrowed
+    narrow.index_param_narrowed(ctx, fx, FILES)
+    # extend from a caller-supplied iterator keeps len in step with the raw writes
+    shrink.len_committed_per_item(ctx, fx, FILES)
+    ctx.floor('R-PANICSAFE.len.loops', 1)
     ctx.floor('R-WRAP.stores', 5)
     shrink.empty_range(ctx, fx, FILES)
     # clear() empties every collection field of the container
